@@ -750,8 +750,8 @@ void LASolver::printStatistics(std::ostream & out) {
 
 bool LASolver::shouldTryCutFromProof() const {
     if (this->config.produce_inter()) { return false; }
-    static unsigned long counter = 0;
-    return ++counter % 10 == 0;
+    // per solver instance: a function-local static would be shared (and raced on) by all instances of the process
+    return ++cutFromProofCounter % 10 == 0;
 }
 
 namespace {
